@@ -322,8 +322,31 @@ pub fn run(ctx: &Ctx) -> i32 {
             let mut pre = header(form);
             let mut direct: Vec<String> = vec![];
             let mut indirect: Vec<String> = vec![];
+            // every other round the definitions that count are written inside a data or EEPROM segment,
+            // replacing stale ones made before: symbol directives work the same in every segment
+            let elsewhere = round % 2 == 1;
+            if elsewhere {
+                for (i, v) in vals.iter().enumerate() {
+                    match form.ops[i] {
+                        Opk::Reg { .. } => pre.push_str(&format!(".def al_{} = r{}\n", i, (*v + 1) % 32)),
+                        Opk::Imm { .. } | Opk::ImmCom { .. } | Opk::Addr8l { .. } => pre.push_str(&format!(".set sym_{} = {}\n", i, *v ^ 1)),
+                        _ => {}
+                    }
+                }
+                pre.push_str(if round % 4 == 1 { ".dseg\n" } else { ".eseg\n" });
+                for (i, _) in vals.iter().enumerate() {
+                    if let Opk::Reg { .. } = form.ops[i] {
+                        pre.push_str(&format!(".undef al_{}\n", i));
+                    }
+                }
+            }
             for (i, v) in vals.iter().enumerate() {
                 match form.ops[i] {
+                    Opk::Imm { .. } | Opk::ImmCom { .. } | Opk::Addr8l { .. } if elsewhere => {
+                        pre.push_str(&format!(".set sym_{} = {} - 1\n.set sym_{} = sym_{} + 1\n", i, v, i, i));
+                        indirect.push(format!("Sym_{}", i));
+                        direct.push(format!("{}", v));
+                    }
                     Opk::Reg { .. } => {
                         pre.push_str(&format!(".def al_{} = r{}\n", i, v));
                         indirect.push(if r.chance(1, 2) { format!("al_{}", i) } else { format!("AL_{}", i) });
@@ -354,6 +377,9 @@ pub fn run(ctx: &Ctx) -> i32 {
                         direct.push(format!("{}+{}", reg, v));
                     }
                 }
+            }
+            if elsewhere {
+                pre.push_str(".cseg\n");
             }
             let params: Vec<String> = (0..vals.len()).map(|i| format!("@{}", i)).collect();
             let src = format!(
